@@ -66,6 +66,13 @@ Theorem snr_is_def : forall parts batches, NoDup parts -> all_in_range parts ->
 Proof. exact (run_entry_is_spec SNR). Qed.
 Print Assumptions snr_is_def.
 
+(* ... and for ANY history of update() and compute() calls (compute after every update, compute twice, ...): every
+   compute() returns the statistic of the rows fed before it; in particular compute() does not disturb the accumulators *)
+Theorem every_compute_is_the_statistic_so_far : forall m parts (h : list (op row)), NoDup parts -> all_in_range parts ->
+  run_history m parts h = spec_history m parts [] h.
+Proof. exact run_history_is_spec. Qed.
+Print Assumptions every_compute_is_the_statistic_so_far.
+
 (* the definitions, spelled out on a defined instance: F = (SSB/(k-1)) / (SSW/(n-k)) with k, n counted over the non-empty
    classes (F_stat unfolds to exactly this) *)
 Theorem F_stat_unfolded : forall gs,
@@ -179,6 +186,13 @@ Example defined_instance :
   /\ option_map this (F_stat (groups ex_parts (concat ex_batches))) = Some (63 # 17)%Q.
 Proof. repeat split; try (vm_compute; reflexivity); apply f_equal; repeat (apply f_equal2 || apply f_equal); apply Qc_is_canon; reflexivity. Qed.
 
+(* a history with a compute() after every update and a repeated compute() at the end *)
+Example history_instance :
+  map (option_map this)
+      (run_history SNR ex_parts [Update (nth 0 ex_batches []); Compute; Update (nth 1 ex_batches []); Compute; Compute])
+  = [None; Some (65 # 17)%Q; Some (65 # 17)%Q].
+Proof. vm_compute. reflexivity. Qed.
+
 (* undefined instances: one class; as many traces as classes; constant classes (SNR, ANOVA); constant samples (NICV) *)
 Example undefined_instances :
   run_entry ANOVA [4]%Z [[(4, qz 1); (4, qz 2)]%Z] = None
@@ -212,7 +226,7 @@ Proof. vm_compute. repeat split; reflexivity. Qed.
 Example part_check_discriminates :
   let mk m o := {| pc_metric := m; pc_prec := F64; pc_parts := Some [3; 1; 7; 200]%Z;
                    pc_batches := [[([1], [1]); ([3], [3])]; [([5], [7]); ([2], [1]); ([9], [7]); ([100], [5])]]%Z;
-                   pc_obs_parts := [3; 1; 7; 200]%Z; pc_obs := Some [[o]] |} in
+                   pc_obs_parts := [3; 1; 7; 200]%Z; pc_obs := Some [(2%nat, [[o]])] |} in
   part_check (mk ANOVA (Fin 4172452595946195 (-50))) = true        (* 63/17 rounded to binary64 *)
   /\ part_check (mk ANOVA (Fin 63 (-4))) = false                   (* 63/16 *)
   /\ part_check (mk ANOVA (Fin 21 (-3))) = false                   (* K <-> K-1 : 2.625 *)
